@@ -1,10 +1,11 @@
 (* GENERATED on every run by harness/translate_caltrack.py from
      opendsm/eemeter/models/hourly_caltrack/segmentation.py (_segment_weights_*, segment_time_series)
      opendsm/eemeter/models/hourly_caltrack/model.py (_PredictionSegmentInfo)
-     opendsm/eemeter/models/hourly_caltrack/wrapper.py (HourlyModel.segment_type)
+     opendsm/eemeter/models/hourly_caltrack/wrapper.py (HourlyModel.segment_type, month_dict, model_month_dict)
+     opendsm/eemeter/common/features.py (fit_temperature_bins default_bins)
    Do not edit. A segment is (name, explicit (month, weight) entries, weight of every other month);
    segments are listed in DataFrame column order. *)
-From Coq Require Import ZArith QArith List String.
+From Coq Require Import ZArith QArith List String Ascii PrimFloat.
 Import ListNotations.
 
 Definition seg : Type := (string * list (Z * Q) * Q)%type.
@@ -46,7 +47,7 @@ Definition tbl_three_month : list seg := [
 Definition tbl_three_month_weighted : list seg := [
   ("dec-jan-feb-weighted"%string, [(12%Z, (1 # 2)%Q); (1%Z, (1 # 1)%Q); (2%Z, (1 # 2)%Q)], (0 # 1)%Q);
   ("jan-feb-mar-weighted"%string, [(1%Z, (1 # 2)%Q); (2%Z, (1 # 1)%Q); (3%Z, (1 # 2)%Q)], (0 # 1)%Q);
-  ("feb-mar-apr-weighted"%string, [(2%Z, (3602879701896397 # 9007199254740992)%Q); (3%Z, (1 # 1)%Q); (4%Z, (1 # 2)%Q)], (0 # 1)%Q);
+  ("feb-mar-apr-weighted"%string, [(2%Z, (1 # 2)%Q); (3%Z, (1 # 1)%Q); (4%Z, (1 # 2)%Q)], (0 # 1)%Q);
   ("mar-apr-may-weighted"%string, [(3%Z, (1 # 2)%Q); (4%Z, (1 # 1)%Q); (5%Z, (1 # 2)%Q)], (0 # 1)%Q);
   ("apr-may-jun-weighted"%string, [(4%Z, (1 # 2)%Q); (5%Z, (1 # 1)%Q); (6%Z, (1 # 2)%Q)], (0 # 1)%Q);
   ("may-jun-jul-weighted"%string, [(5%Z, (1 # 2)%Q); (6%Z, (1 # 1)%Q); (7%Z, (1 # 2)%Q)], (0 # 1)%Q);
@@ -70,3 +71,13 @@ Definition prediction_info : list (string * (string * option (list (string * str
 
 (* the segment type the HourlyModel wrapper fits with *)
 Definition wrapper_segment_type : string := "three_month_weighted"%string.
+
+(* fit_temperature_bins: the candidate bin endpoints (the same numbers as rationals and as binary64) *)
+Definition default_bins : list Q := [(30 # 1)%Q; (45 # 1)%Q; (55 # 1)%Q; (65 # 1)%Q; (75 # 1)%Q; (90 # 1)%Q].
+Definition default_bins_f : list float := [(0x1.e000000000000p+4)%float; (0x1.6800000000000p+5)%float; (0x1.b800000000000p+5)%float; (0x1.0400000000000p+6)%float; (0x1.2c00000000000p+6)%float; (0x1.6800000000000p+6)%float].
+
+(* HourlyModel.fit, uncertainty figures: month_dict, and k.replace(A, B).split(SEP)[I] *)
+Definition wrapper_month_dict : list (string * Z) := [("jan"%string, 1%Z); ("feb"%string, 2%Z); ("mar"%string, 3%Z); ("apr"%string, 4%Z); ("may"%string, 5%Z); ("jun"%string, 6%Z); ("jul"%string, 7%Z); ("aug"%string, 8%Z); ("sep"%string, 9%Z); ("oct"%string, 10%Z); ("nov"%string, 11%Z); ("dec"%string, 12%Z)].
+Definition wrapper_key_replace : string * string := ("-weighted"%string, ""%string).
+Definition wrapper_key_sep : ascii := "-"%char.
+Definition wrapper_key_index : nat := 1.
